@@ -63,6 +63,6 @@ func c09(r *Run) {
 	}
 	runEsc(r, forms, byteInputs(r, true, r.N(2000, 100000), []byte(" \"%+~/?&=\\")), judge, second)
 	regionRel(r, "urlencode", "url", r.N(1500, 60000))
-	escRuns(r, []string{"u", "l"}, []string{"urlEncode", "linkEscape"})
+	escRuns(r, []string{"u", "l"}, []string{"urlEncode", "linkEscape"}, "urlencode")
 	regionRaw(r, r.N(1500, 40000))
 }
